@@ -170,7 +170,7 @@ func init() {
 				Oracles:  []HistOracle{orC12, orC14, orC01}, ReadBackCommit: true,
 				Messages: genMessage}
 		})
-	checks["C11"] = histCheck("C11", []string{"C11.world_head0_commit", "C11.world_head0_reset", "C11.world_head0_switch", "C11.world_head0_switch_create", "C11.world_head0_rename", "C11.world_appends_records", "C11.log_reads_back", "C11.world_log_step", "C11.parseLine_format", "C11.world_log_prefix", "C11.world_history_log_prefix", "C11.parse_append", "C11.parseLines_snoc", "C11.get_agrees_with_listing", "C11.get_append_zero", "C11.get_append_succ", "C11.get_out_of_range", "C11.step_appends", "C11.run_prefix", "C11.shift", "C11.head0_commit", "C11.head0_switch", "C11.head0_reset", "C11.reset_refused"}, histRule+"; `reflog` is run after every commit/switch/reset/rename and compared with the listing before",
+	checks["C11"] = histCheck("C11", []string{"C11.world_head0_commit", "C11.world_head0_reset", "C11.world_head0_switch", "C11.world_head0_switch_create", "C11.world_head0_rename", "C11.world_log_history", "C11.world_appends_records", "C11.log_reads_back", "C11.world_log_step", "C11.parseLine_format", "C11.world_log_prefix", "C11.world_history_log_prefix", "C11.parse_append", "C11.parseLines_snoc", "C11.get_agrees_with_listing", "C11.get_append_zero", "C11.get_append_succ", "C11.get_out_of_range", "C11.step_appends", "C11.run_prefix", "C11.shift", "C11.head0_commit", "C11.head0_switch", "C11.head0_reset", "C11.reset_refused"}, histRule+"; `reflog` is run after every commit/switch/reset/rename and compared with the listing before",
 		func(ctx *Ctx) *HistCfg {
 			return &HistCfg{Prop: "C11", Cases: tierN(ctx, 200, 2000), MinSteps: 10, MaxSteps: 35, TZs: []int{0, 19800, -12600, 3600},
 				W: weights(Weights{"commit": 18, "switch": 6, "switch-c": 4, "reset": 8, "branch-rename": 3, "branch-delete": 2, "branch": 3, "reflog": 4,
